@@ -291,6 +291,7 @@ class Interp:
         self.stmt_hooks = []      # fn(I, ctx, st, bi, si, stmt)
         self.store_hooks = []     # fn(I, ctx, st, Place, new value, site) before an assignment
         self.loop_hooks = []      # fn(I, ctx, head block, head state, back states, exits)
+        self.loop_entry_hooks = []  # fn(I, ctx, head block, entry states)
         self.value_hooks = []     # fn(I, ctx, st, value) -> None, on every assigned value (all passes)
         self.return_hooks = {}
         self.unmodelled = {}
@@ -1708,6 +1709,9 @@ class Interp:
             ex = self.try_unroll(ctx, h, [s.copy() for s in ins])
             if ex is not None:
                 return ex
+        if self.recording and not self.probe_mode:
+            for hk in self.loop_entry_hooks:
+                hk(self, ctx, h, ins)       # the individual states entering the loop, before they are joined
         live = info.live_in[h] | info.addr_taken
         head = self.join_states(ins, (ctx.fid, "pre", h)) if len(ins) > 1 else ins[0]
         # forget dead locals of this frame
